@@ -12,6 +12,7 @@
     `PolicyFilters p` the policy returns a sub-list of the unobserved plates it was given
 -/
 import Batchie.Lemmas.Scores
+import Batchie.Lemmas.ScreenWF
 
 namespace Batchie.Props.C06
 open Batchie.Scores Batchie.Screen Batchie.Proto Batchie.Lemmas.Scores
@@ -344,6 +345,16 @@ theorem C06_pipeline_exists (s : Screen) (hwf : ScreenWF s) (pid : Nat) (batch :
   obtain ⟨inp, hinp⟩ := C06_scoreInputs_succeeds s hwf pid batch n i hi hbatch
   obtain ⟨h, hh, _⟩ := C06_total_scorer_holder s pid batch n i (sc i) (htot i) inp hinp
   exact ⟨h, hh⟩
+
+/-- `ScreenWF` is not an extra assumption on real inputs: every screen the constructor model `mk?` returns, and
+    every screen loaded from a file, satisfies it -/
+theorem C06_constructed_screen_wf (r : Raw) (s : Screen) (h : mk? r = .ok s) : ScreenWF s := mk?_wf r s h
+
+theorem C06_loaded_screen_wf (f : Screen.File) (s : Screen) (h : Screen.load f = .ok s) : ScreenWF s := by
+  unfold Screen.load at h
+  split at h
+  · cases h
+  · exact mk?_wf _ s h
 
 /-- three plates (0 observed, 1 and 2 unobserved), plates 1 and 2 share the condition (sample 0, treatment 1) -/
 def exScreen : Screen :=
